@@ -30,7 +30,9 @@ def parseSuf (s : String) : Option (Suf Tok) :=
     | _, _, _ => none
   | _ => none
 
-def runCase (w : List String) : String :=
+def runCase (w0 : List String) : String :=
+  -- an optional last field names the writer entry point used on the C++ side (direct / final / stub): same model
+  let w := if w0.length = 15 then w0.take 14 else w0
   match w with
   | ["sol", id, fx, nv, nc, msg, opts, ncons, nvars, duals, primals, objno, status, sufs] =>
     match fx.toNat?, nv.toNat?, nc.toNat?, unhex msg, parseList String.toInt? "," opts, ncons.toNat?, nvars.toNat?,
